@@ -45,6 +45,15 @@ Theorem C11_nan_false :
 Proof. intros T N tbl res keys op a b. exact (nan_cmp_false N tbl res keys op a b). Qed.
 Print Assumptions C11_nan_false.
 
+(* ... also when the NaN only appears in a conversion of non-NaN operands
+   (`1 Rm^12/m < 1 Qm^11`: inf/inf): all orderings false, == false *)
+Theorem C11_nan_conv_false :
+  forall (T : Type) (N : numops T) tbl res keys op a b,
+    sym_cmp N tbl res keys a b = Ok None ->
+    vm_cmp N tbl res keys op a b = Ok false /\ qeq N tbl res keys a b = false.
+Proof. intros T N tbl res keys op a b. exact (nan_conv_false N tbl res keys op a b). Qed.
+Print Assumptions C11_nan_conv_false.
+
 (* when the ordering of a against b is defined (non-NaN operands, same
    dimension, converted operands not NaN) exactly one of a < b, a == b, a > b
    holds, and <=, >= are their unions *)
